@@ -51,7 +51,10 @@ RULE = ("F: nested values (depth <= 3) of ints (negative, > 64 bit, bool), strs 
         "= contains a container or a str holding a format character; distinct = distinct canonical values.  "
         "V: (cdef list of 0-3 declarations with random comments, source, kwargs of 0-4 setuptools-like keywords) "
         "triples and derived near-miss variants (text moved between neighbouring parts, a cdef split in two, "
-        "a NUL-separated twin); each triple is evaluated in-process and in subprocesses with PYTHONHASHSEED in "
+        "a NUL-separated twin), and a deterministic re-chunking family per base text (the same text cut into cdef() "
+        "calls at every unit / character position, white space at a cut dropped or exchanged, empty chunks, "
+        "ffi.include() markers, pieces moved between cdef list, source and keyword values: all members pairwise "
+        "distinct inputs => pairwise distinct key texts); each triple is evaluated in-process and in subprocesses with PYTHONHASHSEED in "
         "{0,1,4242,random} under original/reversed/shuffled keyword orders; distinct = distinct canonical inputs")
 ASSUMPTIONS = ["binascii.crc32 is a function of its argument (uninterpreted in the model)",
                "dict keys are int or str",
@@ -389,12 +392,24 @@ def variants(rng, t):
     return out
 
 
+def effective_sources(t):
+    """The list of cdef sources the FFI ends up with (`ffi._cdefsources`): the cdef() arguments in call order;
+    `ffi.include(g)` contributes '[', g's sources, ']' at the position it is called."""
+    c = list(t["cdefs"])
+    inc = t.get("include")
+    if inc is None:
+        return c
+    pos, chunks = inc
+    return c[:pos] + ["["] + list(chunks) + ["]"] + c[pos:]
+
+
 def canon_triple(t):
-    return repr((tuple(t["cdefs"]), t["source"], canon(t["kw"])))
+    return repr((tuple(effective_sources(t)), t["source"], canon(t["kw"])))
 
 
 def triple_has_nul(t):
-    return any("\0" in s for s in t["cdefs"]) or "\0" in t["source"] or any("\0" in s for s in all_strings(t["kw"]))
+    return (any("\0" in s for s in effective_sources(t)) or "\0" in t["source"]
+            or any("\0" in s for s in all_strings(t["kw"])))
 
 
 class _Binascii:
@@ -427,8 +442,25 @@ def real_name(t, tmpdir, kw=None):
     ffi = cffi.FFI()
     with warnings.catch_warnings():
         warnings.simplefilter("ignore")
-        for c in t["cdefs"]:
-            ffi.cdef(c)
+        if t.get("inject"):
+            # the list is installed directly (chunks need not be C): what Verifier.__init__ reads is ffi._cdefsources
+            ffi._cdefsources = effective_sources(t)
+        else:
+            inc = t.get("include")
+            for i, c in enumerate(t["cdefs"]):
+                if inc is not None and inc[0] == i:
+                    g = cffi.FFI()
+                    for gc in inc[1]:
+                        g.cdef(gc)
+                    ffi.include(g)
+                ffi.cdef(c)
+            if inc is not None and inc[0] >= len(t["cdefs"]):
+                g = cffi.FFI()
+                for gc in inc[1]:
+                    g.cdef(gc)
+                ffi.include(g)
+        if ffi._cdefsources != effective_sources(t):
+            raise InfraError("ffi._cdefsources is not the list of cdef()/include() arguments: %r" % (ffi._cdefsources,))
     log = []
     old = V.binascii
     V.binascii = _Binascii(binascii, log)
@@ -572,15 +604,153 @@ def part_v(ctx, n, oracle_only=False):
                 ctx.disagree(case, want, o, what)
 
 
+# ------------------------------------------------------------------ re-chunking family (injectivity of the key)
+
+def compositions(units, maxcuts=None):
+    """All ways of cutting the unit sequence into consecutive non-empty chunks (each chunk = concatenated units)."""
+    n = len(units)
+    if n == 0:
+        return [[]]
+    out = []
+    for mask in range(1 << (n - 1)):
+        if maxcuts is not None and bin(mask).count("1") > maxcuts:
+            continue
+        chunks, cur = [], units[0]
+        for i in range(1, n):
+            if mask >> (i - 1) & 1:
+                chunks.append(cur)
+                cur = units[i]
+            else:
+                cur += units[i]
+        chunks.append(cur)
+        out.append(chunks)
+    return out
+
+
+def with_empty_chunks(chunks):
+    res = [[""] + chunks, chunks + [""]]
+    if len(chunks) >= 2:
+        res.append(chunks[:1] + [""] + chunks[1:])
+    return res
+
+
+def is_ws(u):
+    return u != "" and u.strip() == ""
+
+
+def unit_variants(units):
+    """The unit sequence itself, with one white-space unit deleted, and with one white-space unit exchanged."""
+    seqs = [list(units)]
+    for i, u in enumerate(units):
+        if is_ws(u):
+            seqs.append(units[:i] + units[i + 1:])
+            seqs.append(units[:i] + ["\n" if u != "\n" else " "] + units[i + 1:])
+    return seqs
+
+
+def base_triple(**kw):
+    t = {"cdefs": [], "source": "", "kw": {}, "tag": "", "generic": False}
+    t.update(kw)
+    return t
+
+
+def rechunk_family(rng, idx):
+    """A deterministic family of inputs built from one base text by cutting it into cdef() calls at every unit /
+    character position, dropping or exchanging the white space at a cut, adding empty chunks, moving pieces between
+    the cdef list, the included FFI, the source string and keyword values.  All members are NUL-free; any two
+    members that differ as inputs must be hashed through different key texts."""
+    n = idx * 7 + rng.randint(0, 5)
+    decl = ["int fa%d(int);" % n, "typedef int tb%d;" % n, "extern int gc%d;" % n, "struct sd%d { int a; };" % n,
+            "double he%d(double);" % n]
+    rng.shuffle(decl)
+    ws = ["\n", " ", "\n", "\t", "  ", "\n\n"]
+    fam = []
+    # A: real cdef() calls; units = declarations, white space, complete comments: every concatenation is valid C
+    units = [decl[0], rng.choice(ws), decl[1], " ", "// c%d\n" % n, decl[2], "\n", "/* k */", decl[3]]
+    units = units[:rng.choice([6, 7, 9])]
+    for seq in unit_variants(units):
+        for chunks in compositions(seq, maxcuts=4):
+            fam.append(("A", base_triple(cdefs=chunks)))
+            if len(chunks) <= 2:
+                for ch in with_empty_chunks(chunks):
+                    fam.append(("A", base_triple(cdefs=ch)))
+    # A': ffi.include(): the '[' ... ']' markers, text moved across them
+    g_units = ["typedef int u%d;" % n, "\n", "typedef int v%d;" % n]
+    own = [decl[0], " ", decl[1]]
+    for gseq in unit_variants(g_units):
+        for gch in compositions(gseq):
+            for och in compositions(own):
+                for pos in range(len(och) + 1):
+                    fam.append(("I", base_triple(cdefs=och, include=[pos, gch])))
+    for k in (1, 2):          # a declaration of the included FFI declared by the including one instead, and back
+        fam.append(("I", base_triple(cdefs=["".join(g_units[-k:])] + own, include=[0, ["".join(g_units[:-k])]])))
+        fam.append(("I", base_triple(cdefs=own + ["".join(g_units[-k:])], include=[len(own), ["".join(g_units[:-k])]])))
+        fam.append(("I", base_triple(cdefs=["".join(g_units[:k])] + own, include=[1, ["".join(g_units[k:])]])))
+    # B: the list Verifier.__init__ reads, cut at every character position (chunks need not be C)
+    text = rng.choice(["ab\nc d[e]\n\nf", "[\n]\n [ ]x\ny", "a b\n\n[c\n]d e", "x\n[\ny\n]\nz w"])
+    texts = [text] + [text[:i] + text[i + 1:] for i, c in enumerate(text) if c in "\n []"]
+    for tx in texts:
+        for chunks in compositions(list(tx), maxcuts=2 if tx is text else 1):
+            fam.append(("B", base_triple(cdefs=chunks, inject=True)))
+            if len(chunks) <= 2:
+                for ch in with_empty_chunks(chunks):
+                    fam.append(("B", base_triple(cdefs=ch, inject=True)))
+    # C: text moved between the source string, keyword values and the cdef list
+    s_ = rng.choice(["m\nz q", "lib x\ny", "a b\nc"])
+    for i in range(len(s_) + 1):
+        a, b = s_[:i], s_[i:]
+        fam.append(("C", base_triple(source=a, kw={"libraries": [b]})))
+        fam.append(("C", base_triple(source=b, kw={"libraries": [a]})))
+        fam.append(("C", base_triple(kw={"libraries": [a, b]})))
+        fam.append(("C", base_triple(kw={"libraries": [a], "include_dirs": [b]})))
+        fam.append(("C", base_triple(kw={"libraries": [a + "\n" + b]})))
+        fam.append(("C", base_triple(source=a, cdefs=[decl[0]], kw={"libraries": [b]})))
+    cu = [decl[0], "\n", decl[1], " ", decl[2]]
+    src0 = "#include <x.h>\n"
+    for k in range(len(cu) + 1):
+        head, tail = cu[:k], "".join(cu[k:])
+        pre = "".join(cu[:k])
+        for chunks in compositions(head, maxcuts=2):
+            fam.append(("C", base_triple(cdefs=chunks, source=tail + src0)))     # suffix of the cdefs -> front of the source
+            fam.append(("C", base_triple(cdefs=chunks, source=src0 + tail)))
+            fam.append(("C", base_triple(cdefs=chunks, source=src0, kw={"libraries": [tail]})))
+        for chunks in compositions(cu[k:], maxcuts=2):
+            fam.append(("C", base_triple(cdefs=chunks, source=src0 + pre)))      # prefix of the cdefs -> end of the source
+            fam.append(("C", base_triple(cdefs=chunks, source=src0, kw={"sources": [pre]})))
+    return fam
+
+
+def rechunk_search(ctx, nbases):
+    """Oracle on the real Verifier alone: distinct members of a re-chunking family have distinct key texts."""
+    for idx in range(nbases):
+        fam = rechunk_family(ctx.rng, idx)
+        bykey = {}
+        for kind, t in fam:
+            name, kb = real_name(t, ctx.scratch)
+            ct = canon_triple(t)
+            ctx.case(None)
+            ctx.count("V:rechunk-" + kind)
+            prev = bykey.setdefault(kb, (ct, t))
+            if prev[0] != ct:
+                ctx.fail({"part": "V", "a": prev[1], "b": t, "nul": False},
+                         "two different inputs (the same text cut / distributed differently) are hashed through the "
+                         "same key and get the module name %s without any CRC collision" % name)
+                return
+
+
 # ------------------------------------------------------------------ entry points
 
 def correspond(ctx):
     part_f(ctx, ctx.n(500, 20000))
     collision_search(ctx, ctx.n(3000, 100000))
+    rechunk_search(ctx, ctx.n(2, 12))
     part_v(ctx, ctx.n(40, 500))
 
 
 def search(ctx):
+    rechunk_search(ctx, ctx.n(6, 40))
+    if ctx.failures:
+        return
     collision_search(ctx, ctx.n(40000, 400000))
     if not ctx.failures:
         part_f(ctx, ctx.n(4000, 40000), oracle_only=True)
